@@ -473,6 +473,14 @@ def gen_cfg(rng, klass, layout, gowrap, quick):
         env[k] = v
     if b"PWD" not in env and rng.random() < 0.5:
         env[b"PWD"] = b"/nonexistent/caller-pwd"
+    if klass == "hashfast":
+        # MAGEFILE_HASHFAST=1 late in the run: the binary an earlier configuration of this project left in the cache is
+        # run without rebuilding (Invoke's early return) - from another directory than the magefile directory
+        env[b"MAGEFILE_HASHFAST"] = rng.choice([b"1", b"true"])
+        c["dv"] = rng.choice(["rel", "abs", "nested", "reldot", "relslashes", "symlink", "absdot"])
+        c["wv"] = rng.choice(["none", "none", "none", "rel", "linkup"])
+        for k in (b"MAGEFILE_LIST", b"MAGEFILE_HELP"):
+            env.pop(k, None)
     if klass == "alt":
         # a few thousand short writes alternating between stderr and stdout, both going to ONE sink
         c.update(word="echo", out="lines-odd", err="lines-even", combined=True, sink=rng.choice(["pipe", "file"]), seed=0,
@@ -1224,8 +1232,8 @@ def run(ctx):
     # configurations
     nproj = 12 if quick else 16
     layouts = (["plain", "mfdir", "plain", "both"] * 4)[:nproj]
-    counts = ({"slowbuild": 1, "matrix": 54, "dashdash": 20, "default": 10, "listhelp": 8, "explicit-off": 6, "echo": 12, "alt": 6} if quick else
-              {"slowbuild": 4, "matrix": 1500, "dashdash": 400, "default": 200, "listhelp": 120, "explicit-off": 40, "echo": 200, "alt": 40})
+    counts = ({"slowbuild": 1, "matrix": 54, "dashdash": 20, "default": 10, "listhelp": 8, "explicit-off": 6, "echo": 12, "alt": 6, "hashfast": 5} if quick else
+              {"slowbuild": 4, "matrix": 1500, "dashdash": 400, "default": 200, "listhelp": 120, "explicit-off": 40, "echo": 200, "alt": 40, "hashfast": 100})
     cfgs = []
     if ctx.replay and ctx.replay.get("case"):
         cfgs = [] if ctx.replay["case"].get("parser_words") is not None else [ctx.replay["case"]]
